@@ -78,6 +78,39 @@ func accessPath(v ssa.Value) (ssa.Value, string, bool) {
 	return base, n.Obj().Name() + "." + f, true
 }
 
+// elemPath returns (slice, index) if v is a load of an element of a slice or array (`bs[i]`).
+func elemPath(v ssa.Value) (ssa.Value, ssa.Value, bool) {
+	u, ok := v.(*ssa.UnOp)
+	if !ok || u.Op != token.MUL {
+		return nil, nil, false
+	}
+	ia, ok := u.X.(*ssa.IndexAddr)
+	if !ok {
+		return nil, nil, false
+	}
+	return ia.X, ia.Index, true
+}
+
+// elemsStored: the function of v assigns an element of a slice or array with elements of v's type (then two reads
+// of the same element need not see the same value).
+func elemsStored(v ssa.Value) bool {
+	in, ok := v.(ssa.Instruction)
+	if !ok || in.Parent() == nil {
+		return true
+	}
+	found := false
+	for _, g := range ssau.WithAnon(in.Parent()) {
+		ssau.Instrs(g, func(x ssa.Instruction) {
+			if st, isSt := x.(*ssa.Store); isSt {
+				if _, isIA := st.Addr.(*ssa.IndexAddr); isIA && types.Identical(st.Val.Type(), v.Type()) {
+					found = true
+				}
+			}
+		})
+	}
+	return found
+}
+
 // nonNilAt reports evidence that v is not nil at block b.
 func nonNilAt(v ssa.Value, b *ssa.BasicBlock, facts []flow.Fact, pair bool) string {
 	vb, vp, vIsPath := accessPath(v)
@@ -101,6 +134,14 @@ func nonNilAt(v ssa.Value, b *ssa.BasicBlock, facts []flow.Fact, pair bool) stri
 		if vIsPath && nonnil {
 			if xb, xp, ok := accessPath(x); ok && xb == vb && xp == vp {
 				return "nil test of the same field (" + vp + ")"
+			}
+		}
+		if nonnil {
+			// the same element of the same slice read again (`if bs[i] == nil { continue }; use(bs[i].f)`)
+			if vs, vi, ok := elemPath(v); ok {
+				if xs, xi, ok2 := elemPath(x); ok2 && xs == vs && xi == vi && !elemsStored(v) {
+					return "nil test of the same element"
+				}
 			}
 		}
 		if pair && isnil {
